@@ -2,6 +2,7 @@ package main
 
 import (
 	"fmt"
+	"google.golang.org/protobuf/types/known/timestamppb"
 	"path/filepath"
 
 	"github.com/protobom/protobom/pkg/sbom"
@@ -334,6 +335,18 @@ func runC10(seed int64, n int, dir string, tier string) *Report {
 			b.Nodes = append(b.Nodes, g.Node("zz", 0.3))
 		case 4: // identical
 			b = clone(a)
+		case 5: // the same nodes up to what Equal ignores: order inside set-valued attributes, sub-second parts of dates
+			a = g.NodeList(gen.Shape{MaxNodes: 4, MaxEdges: 4, WellFormed: true, Richness: 0.85, Pool: gen.IDPool[:6]})
+			b = clone(a)
+			for _, nd := range b.Nodes {
+				g.ShuffleSets(nd.ProtoReflect())
+				for _, ts := range []*timestamppb.Timestamp{nd.ReleaseDate, nd.BuildDate, nd.ValidUntilDate} {
+					if ts != nil {
+						ts.Nanos = (ts.Nanos + 1 + int32(g.Int(400000000))) % 1000000000
+					}
+				}
+			}
+			rep.Count("operands=equal-up-to-order-and-subseconds")
 		}
 		empty := &sbom.NodeList{}
 		addCase(a, b)
